@@ -1,6 +1,6 @@
 ------------------------ MODULE Gen_MetricsLifecycle ------------------------
 (* History generator for MetricsLifecycle (C08 e2e): random walks (tlc -simulate) through Put / BlockFlush / SegRotate /
-   Restart with "check" steps in between.  A check step carries, for every selector and every prefix / suffix / full
+   Restart / TagsFlush with "check" steps in between.  A check step carries, for every selector and every prefix / suffix / full
    window, the answer the specification requires at that moment (MetricsLifecycle!Answer); checks/c08.py performs the
    steps on the real engine and compares every answer bit-exactly. *)
 EXTENDS MetricsLifecycle
@@ -12,11 +12,12 @@ NSegRot == Cardinality({i \in 1..Len(hist) : hist[i].op = "segrotate"})
 Check == /\ acc # {} /\ LastOp # "check"
          /\ Step([op |-> "check",
                   answers |-> {[sel |-> S, a |-> w[1], b |-> w[2], expect |-> Answer(S, w[1], w[2])] : S \in Selectors, w \in Windows}])
-         /\ UNCHANGED <<open, blocks, rotated, acc, last, nputs, nrestarts>>
+         /\ UNCHANGED <<open, blocks, rotated, acc, last, nputs, nrestarts, tmem, tdisk, hrot, firstseg>>
 GenNext == \/ \E s \in Series, t \in 1..MaxT : Put(s, t)
            \/ BlockFlush
            \/ (NSegRot = 0 /\ SegRotate)          \* the replay waits for the 5 s metadata refresh after a segment rotation
            \/ Restart
+           \/ TagsFlush
            \/ Check
 GenSpec == Init /\ [][GenNext]_vars
 Lifecycle == {i \in 1..Len(hist) : hist[i].op \in {"blockflush", "segrotate", "restart"}}
